@@ -319,6 +319,9 @@ func buildShard(e ecoDef, k int, r *rand.Rand, fixtures []string, pool, extra, n
 	}
 	// --- canonical-rule cases: published chains (fixed) + rule-constructed pairs (fresh per shard)
 	rcs := append(publishedChains(e.kind), ruleCases(e.kind, g, nrules)...)
+	if k == 0 { // deterministic: once per ecosystem
+		rcs = append(rcs, systematicRules(e.kind)...)
+	}
 	if kinds[e.kind].lowers && k == 0 {
 		prefix := map[string]string{"nuget": "1.0.0-", "maven": "1-", "pypi": "1.0-"}[e.kind]
 		for _, s := range caseSweep(prefix) {
